@@ -69,6 +69,9 @@ func c17CrossCases() []c17CrossCase {
 		{"chain B's admin (registered later)", fix.KB, fix.ChainA, fix.Svc1, fix.KA, nil},
 		// an appchain whose id extends chain A's id by the separator used in service ids
 		{"chain A's admin", fix.KA, c17SubChain, fix.Svc1, fix.KC, c17SetupSubChain},
+		// two appchains whose ids differ only in letter case, both directions
+		{"chain A's admin", fix.KA, c17CaseChain, fix.Svc1, fix.KC, c17SetupCaseChain},
+		{"the admin of the look-alike chain", fix.KC, fix.ChainA, fix.Svc1, fix.KA, c17SetupCaseChain},
 	} {
 		o := o
 		foreign := []string{strings.ToLower(fix.Addr(o.victim).String()), strings.ToLower(o.chain)}
@@ -103,6 +106,16 @@ func c17CrossCases() []c17CrossCase {
 // c17SubChain: a second appchain, owned by another account, whose id is chain A's id followed
 // by ":" and a suffix (service ids are "<chain id>:<service id>").
 var c17SubChain = fix.ChainA + ":sub"
+
+// c17CaseChain: chain A's id with its first letter in upper case, owned by another account.
+var c17CaseChain = strings.ToUpper(fix.ChainA[:1]) + fix.ChainA[1:]
+
+func c17SetupCaseChain(w *fix.World) {
+	res := w.Must(w.Block(w.RegisterAppchainTx(fix.KC, c17CaseChain, "0x00000000000000000000000000000000000000a2", nil, "ETH")))
+	w.Approve(fix.ProposalID(res.Receipts[0]))
+	res = w.Must(w.Block(w.RegisterServiceTx(fix.KC, c17CaseChain, fix.Svc1, "")))
+	w.Approve(fix.ProposalID(res.Receipts[0]))
+}
 
 func c17SetupSubChain(w *fix.World) {
 	res := w.Must(w.Block(w.RegisterAppchainTx(fix.KC, c17SubChain, "0x00000000000000000000000000000000000000a2", nil, "ETH")))
